@@ -69,6 +69,45 @@ theorem c17_big_int_stdlib (cfg : Config) (a : Backend) (v : Json) (h : wf v = t
   have h2 := dec_enc cfg.slow v h
   cases a <;> simp [loads, dumps, h64, h2]
 
+/-- Decoding does not depend on what was decoded before: a decoder that remembers earlier results answers every text
+exactly like the plain decoder, first time and every later time, as long as its memory only holds what it decoded
+itself (`cacheOk`, which `loadsMemo` preserves).  The real code has no such memory; what can break this in Python —
+handing out the remembered object itself, so that a caller's in-place edit changes later answers — has no counterpart
+in the model and is checked on the real code (decode, edit every nested container, decode again). -/
+theorem c17_memo_transparent (c : Cache) (t : List Char) (h : cacheOk c) :
+    (loadsMemo c t).2 = dec t ∧ cacheOk (loadsMemo c t).1 := by
+  unfold loadsMemo
+  cases hg : cacheGet c t with
+  | some v => exact ⟨(h t v hg).symm, h⟩
+  | none =>
+    cases hd : dec t with
+    | none => exact ⟨rfl, h⟩
+    | some v =>
+      refine ⟨rfl, ?_⟩
+      intro t' v' hq
+      simp only [cacheGet] at hq
+      by_cases ht : t = t'
+      · subst ht; simp at hq; subst hq; exact hd
+      · simp [ht] at hq; exact h t' v' hq
+
+/-- … hence for any sequence of texts, starting from an empty memory. -/
+theorem c17_memo_sequence (ts : List (List Char)) :
+    ∀ c, cacheOk c → (ts.foldl (fun (st : Cache × List (Option Json)) t => ((loadsMemo st.1 t).1, st.2 ++ [(loadsMemo st.1 t).2])) (c, [])).2
+      = ts.map dec := by
+  suffices H : ∀ (ts : List (List Char)) (c : Cache) (acc : List (Option Json)), cacheOk c →
+      (ts.foldl (fun (st : Cache × List (Option Json)) t => ((loadsMemo st.1 t).1, st.2 ++ [(loadsMemo st.1 t).2])) (c, acc)).2
+        = acc ++ ts.map dec by
+    intro c hc; simpa using H ts c [] hc
+  intro ts
+  induction ts with
+  | nil => intro c acc _; simp
+  | cons t rest ih =>
+    intro c acc hc
+    have hm := c17_memo_transparent c t hc
+    simp only [List.foldl_cons, List.map_cons]
+    rw [ih _ _ hm.2, hm.1]
+    simp
+
 /-! Non-vacuity: a concrete value with every constructor, a control character, U+2028, an
 astral character, a non-ASCII key, 2^64−1, −2^63 and a float token satisfies the hypotheses,
 and the two encoders really differ on it. -/
@@ -82,5 +121,6 @@ example : wf (.int 18446744073709551616) = true ∧ fits64 (.int 184467440737095
 example : loads .orjson (dumps pinned .stdlib sample) = some sample :=
   c17_roundtrip pinned .stdlib .orjson sample (by decide) (by decide)
 example : encOrjson (.str ['é']) ≠ encStd (.str ['é']) := by decide
+example : cacheOk [] := by intro t v h; simp [cacheGet] at h
 
 end Verif.Props.C17
